@@ -247,6 +247,25 @@ def xsearchParallel (env : XEnv) (pre maxRepeats : Nat) (stop : StopRule) (choic
     (st : XState) : XPState :=
   xparPhase1 env pre maxRepeats stop choices { h := st }
 
+/-! ### what else the clean-up could do with futures that had already finished
+       (not the code as written; subjects of `C08.harvest_report_only_counterexample` and
+       `C08.harvest_and_assess_tracks`, and what the harness compares with when a changed tree
+       collects results during the clean-up) -/
+
+/-- pass the result of every finished popped future to `_maybe_report_result` only -/
+def harvestReportOnly (env : XEnv) (ps : XPState) : XState :=
+  ps.discarded.foldl (fun h f =>
+    match env.trialFn f.2 f.1 with
+    | some t => xreport h f.1 t
+    | none => h) ps.h
+
+/-- record *and* compare them -/
+def harvestAndAssess (env : XEnv) (ps : XPState) : XState :=
+  ps.discarded.foldl (fun h f =>
+    match env.trialFn f.2 f.1 with
+    | some t => xcomplete h f.1 t
+    | none => h) ps.h
+
 /-! ### specification-side helpers -/
 
 abbrev XLog := List (Setting × XTrial)
